@@ -19,39 +19,36 @@ structure PField where
   raw : Bytes
   deriving Repr, Inhabited, DecidableEq
 
-/-- `_read_exact(stream, n)` on the remaining input -/
-def readExact (bs : Bytes) (n : Nat) : R (Bytes × Bytes) :=
-  if bs.length < n then .error .eof else .ok (bs.take n, bs.drop n)
+/-- the payload of a field of wire type `wt` at the head of `rest`:
+    (decoded varint, decoded bytes, number of bytes consumed) -/
+def loadPayload (wt : Nat) (rest : Bytes) : R (Nat × Bytes × Nat) :=
+  if wt == wireVarint then
+    match loadVarint rest with
+    | .error e => .error e
+    | .ok (v, k2) => .ok (v, [], k2)
+  else if wt == wireFixed64 then
+    if rest.length < 8 then .error .eof else .ok (0, rest.take 8, 8)
+  else if wt == wireLenDelim then
+    match loadVarint rest with
+    | .error e => .error e
+    | .ok (len, k2) =>
+      if (rest.drop k2).length < len then .error .eof else .ok (0, (rest.drop k2).take len, k2 + len)
+  else if wt == wireFixed32 then
+    if rest.length < 4 then .error .eof else .ok (0, rest.take 4, 4)
+  else .error .value
 
 /-- one field: returns it and the remaining input -/
 def loadField (bs : Bytes) : R (PField × Bytes) :=
   match loadVarint bs with
   | .error e => .error e
   | .ok (numWire, k) =>
-    let number := numWire / 8
-    let wt := numWire % 8
-    let rest := bs.drop k
-    if number == 0 then .error .value
-    else if wt == wireVarint then
-      match loadVarint rest with
+    if numWire / 8 == 0 then .error .value
+    else
+      match loadPayload (numWire % 8) (bs.drop k) with
       | .error e => .error e
-      | .ok (v, k2) => .ok ({ num := number, wt := wt, vint := v, payload := [], raw := bs.take (k + k2) }, rest.drop k2)
-    else if wt == wireFixed64 then
-      match readExact rest 8 with
-      | .error e => .error e
-      | .ok (p, rest') => .ok ({ num := number, wt := wt, vint := 0, payload := p, raw := bs.take (k + 8) }, rest')
-    else if wt == wireLenDelim then
-      match loadVarint rest with
-      | .error e => .error e
-      | .ok (len, k2) =>
-        match readExact (rest.drop k2) len with
-        | .error e => .error e
-        | .ok (p, rest') => .ok ({ num := number, wt := wt, vint := 0, payload := p, raw := bs.take (k + k2 + len) }, rest')
-    else if wt == wireFixed32 then
-      match readExact rest 4 with
-      | .error e => .error e
-      | .ok (p, rest') => .ok ({ num := number, wt := wt, vint := 0, payload := p, raw := bs.take (k + 4) }, rest')
-    else .error .value
+      | .ok (v, p, c) =>
+        .ok ({ num := numWire / 8, wt := numWire % 8, vint := v, payload := p, raw := bs.take (k + c) },
+             bs.drop (k + c))
 
 /-- `load_fields` with explicit fuel (every field consumes at least one byte, so
     `bs.length + 1` always suffices: lemma `loadFields_fuel`) -/
